@@ -25,8 +25,62 @@ fn key_hex(ac: &AbstractCall) -> String {
     format!("{}.{}.{}.{}", ac.profile, ac.kind, simcore::hex(ac.a.as_bytes()), simcore::hex(ac.b.as_bytes()))
 }
 
+/// (native only) `c16_miri --gen <seed> <index>`: prints a small session for the Miri engine —
+/// 1-2 workloads with >= 2 threads, short call lists, the static API form prominent — and the
+/// distinct abstract calls it contains, so that the driver can obtain cold-start references.
+fn gen_session(seed: u64, idx: u64) {
+    let mut rng = simcore::Rng::derive(seed, idx, 1600);
+    let cfg = GenCfg { max_threads: 4, max_calls: 3 };
+    let mut ws = vec![];
+    let n = 1 + rng.usize_below(2);
+    while ws.len() < n {
+        let mut w = gen_workload(&mut rng, &cfg);
+        if w.threads.len() < 2 || w.ncalls() < 2 {
+            continue;
+        }
+        // every thread starts at once and the static form dominates: first use is contended
+        for t in &mut w.threads {
+            if rng.chance(3, 4) {
+                t.after = 0;
+                t.parent = 0;
+            }
+            for c in &mut t.calls {
+                if rng.chance(2, 3) {
+                    c.api = 0;
+                }
+            }
+        }
+        // keep Miri's interpretation cost bounded: short inputs only
+        if w.pool.iter().any(|s| s.len() > 48) {
+            continue;
+        }
+        ws.push(w);
+    }
+    let mut calls = std::collections::BTreeMap::new();
+    for w in &ws {
+        for t in &w.threads {
+            for c in &t.calls {
+                let ac = AbstractCall::of(w, c);
+                calls.insert(key_hex(&ac), serde_json::json!([ac.profile, ac.kind, simcore::hex(ac.a.as_bytes()), simcore::hex(ac.b.as_bytes())]));
+            }
+        }
+    }
+    println!("{}", serde_json::json!({
+        "workloads": ws.iter().map(|w| serde_json::from_str::<serde_json::Value>(&w.to_arg()).unwrap()).collect::<Vec<_>>(),
+        "abstract_calls": calls,
+        "threads": ws.iter().map(|w| w.threads.len()).collect::<Vec<_>>(),
+        "calls": ws.iter().map(|w| w.ncalls()).sum::<usize>(),
+    }));
+}
+
 fn main() {
     let args: Vec<String> = std::env::args().collect();
+    if args.get(1).map(|s| s.as_str()) == Some("--gen") {
+        let seed = args.get(2).and_then(|x| x.parse().ok()).unwrap_or(0);
+        let idx = args.get(3).and_then(|x| x.parse().ok()).unwrap_or(0);
+        gen_session(seed, idx);
+        return;
+    }
     let v: serde_json::Value = match args.get(1).and_then(|s| serde_json::from_str(s).ok()) {
         Some(v) => v,
         None => {
